@@ -267,12 +267,12 @@ def check_table(case, ctx):
 # --------------------------------------------------------------------------- read-only objects
 
 RO = [
-    ('CSSStyleSheet', lambda: css.CSSStyleSheet(readonly=True), [('cssText', 'a {}'), ('insertRule', ('a {}', 0)), ('add', 'a {}'), ('deleteRule', 0)]),
+    ('CSSStyleSheet', lambda: css.CSSStyleSheet(readonly=True), [('cssText', 'a {}'), ('insertRule', ('a {}', 0)), ('add', 'a {}'), ('deleteRule', 0), ('encoding', 'ascii')]),
     ('CSSStyleRule', lambda: css.CSSStyleRule(selectorText='a', style='top: 0', readonly=True), [('cssText', 'b { left: 0 }'), ('selectorText', 'b'), ('style', 'left: 0')]),
-    ('CSSStyleDeclaration', lambda: css.CSSStyleDeclaration(cssText='top: 0', readonly=True), [('cssText', 'left: 0'), ('setProperty', ('left', '0')), ('removeProperty', 'top'), ('__setitem__', ('left', '0')), ('__delitem__', 'top')]),
-    ('SelectorList', lambda: css.SelectorList(selectorText='a, b', readonly=True), [('selectorText', 'c'), ('appendSelector', 'c'), ('__setitem__', (0, 'c'))]),
+    ('CSSStyleDeclaration', lambda: css.CSSStyleDeclaration(cssText='top: 0', readonly=True), [('cssText', 'left: 0'), ('setProperty', ('left', '0')), ('removeProperty', 'top'), ('__setitem__', ('left', '0')), ('__delitem__', 'top'), ('top', '1px'), ('marginTop', '1px')]),
+    ('SelectorList', lambda: css.SelectorList(selectorText='a, b', readonly=True), [('selectorText', 'c'), ('appendSelector', 'c'), ('append', 'c'), ('__setitem__', (0, 'c')), ('__delitem__', 0)]),
     ('Selector', lambda: css.Selector(selectorText='a', readonly=True), [('selectorText', 'b')]),
-    ('MediaList', lambda: stylesheets.MediaList(mediaText='print', readonly=True), [('mediaText', 'tv'), ('appendMedium', 'tv'), ('deleteMedium', 'print'), ('__setitem__', (0, 'tv'))]),
+    ('MediaList', lambda: stylesheets.MediaList(mediaText='print', readonly=True), [('mediaText', 'tv'), ('appendMedium', 'tv'), ('append', 'tv'), ('deleteMedium', 'print'), ('__setitem__', (0, 'tv')), ('__delitem__', 0)]),
     ('MediaQuery', lambda: stylesheets.MediaQuery(mediaText='print', readonly=True), [('mediaText', 'tv'), ('mediaType', 'tv')]),
     ('CSSMediaRule', lambda: css.CSSMediaRule(mediaText='print', readonly=True), [('cssText', '@media tv { a {} }'), ('insertRule', ('a {}', 0)), ('add', 'a {}'), ('deleteRule', 0)]),
     ('CSSPageRule', lambda: css.CSSPageRule(selectorText=':first', style='margin: 0', readonly=True), [('cssText', '@page { margin: 1cm }'), ('selectorText', ':left'), ('style', 'margin: 1cm')]),
